@@ -37,6 +37,7 @@
 #include <eventpp/utilities/scopedremover.h>
 
 #include <algorithm>
+#include <map>
 #include <memory>
 #include <set>
 #include <utility>
@@ -116,6 +117,24 @@ struct KEQ : KDispBase<eventpp::EventQueue<int, void(int), Pol> >
 	static const char * name() { return "EventQueue<int,void(int)>"; }
 	static void enqueue(T & t, int key, int arg) { t.enqueue(keyVal(key), arg); }
 	static void process(T & t) { t.process(); }
+};
+
+// a dispatcher whose Map policy identifies events more coarsely than operator== does (here: modulo 1000; think of a case-insensitive
+// string map): listeners are added under k, removed through the remover under k + 1000 and triggered under k + 2000 - all the same
+// event for the dispatcher, so all the same event for a remover of that dispatcher
+struct ModLess { bool operator() (int a, int b) const { return a % 1000 < b % 1000; } };
+template <typename K, typename V> using CoarseMap = std::map<K, V, ModLess>;
+struct PolCoarse { template <typename K, typename V> using Map = CoarseMap<K, V>; };
+struct KEDCoarse : KDispBase<eventpp::EventDispatcher<int, void(int), PolCoarse> >
+{
+	typedef eventpp::EventDispatcher<int, void(int), PolCoarse> T;
+	enum { NKEYS = 3, QUEUED = 0 };
+	static const char * name() { return "EventDispatcher<int,void(int)> with a Map whose key equivalence is coarser than =="; }
+	static bool removeVia(R & r, int key, const Handle & h) { return r.removeListener(keyVal(key) + 1000, h); }
+	static bool removeDirect(T & t, int key, const Handle & h) { return t.removeListener(keyVal(key) + 3000, h); }
+	static void trigger(T & t, int key, int arg) { t.dispatch(keyVal(key) + 2000, arg); }
+	static void enqueue(T &, int, int) {}
+	static void process(T &) {}
 };
 
 // ------------------------------------------------------------------ model
@@ -699,7 +718,7 @@ static void runCfg(Rng & rng, uint64_t caseNo, int cfgIndex)
 	{
 		World<K> w(rng);
 		w.allowNested = ctx().optInt("nested", 1) != 0;
-		oplog("config " + num(cfgIndex) + ": ScopedRemover<" + K::name() + ">" + (cfgIndex >= 3 ? " SingleThreading" : "") + " ops=" + num(nops));
+		oplog("config " + num(cfgIndex) + ": ScopedRemover<" + K::name() + ">" + (cfgIndex >= 3 && cfgIndex < 6 ? " SingleThreading" : "") + " ops=" + num(nops));
 		w.run(nops);
 		h = w.trace.h;
 		nontrivial = w.sawTransfer && w.sawDestroyWithListeners;
@@ -713,7 +732,7 @@ static void runCfg(Rng & rng, uint64_t caseNo, int cfgIndex)
 	if(wantSample() && nontrivial && ! caseHasViolation()) addSample("{\"case\":" + unum(caseNo) + ",\"history\":" + oplogJson(ctx().oplog, 80) + "}");
 }
 
-enum { NCFG = 6 };
+enum { NCFG = 7 };
 
 static void runCase(uint64_t caseNo, Rng & rng)
 {
@@ -726,6 +745,7 @@ static void runCase(uint64_t caseNo, Rng & rng)
 	case 3: runCfg<KCL<PolSingle> >(rng, caseNo, 3); break;
 	case 4: runCfg<KED<PolSingle> >(rng, caseNo, 4); break;
 	case 5: runCfg<KEQ<PolSingle> >(rng, caseNo, 5); break;
+	case 6: runCfg<KEDCoarse>(rng, caseNo, 6); break;
 	default: --ctx().casesRun; break;
 	}
 }
